@@ -38,11 +38,11 @@ const c17Schema = `{"name":"CON","version":"1.0.0","tables":{
  "Q":{"columns":{"name":{"type":"string"}}}}}`
 
 var (
-	c17C  = uu("1", 1)
-	c17K  = []string{uu("2", 1), uu("2", 2), uu("2", 3)}
-	c17P  = []string{uu("3", 1), uu("3", 2)}
-	c17Q  = uu("4", 1)
-	c17W  = uu("5", 1)
+	c17C = uu("1", 1)
+	c17K = []string{uu("2", 1), uu("2", 2), uu("2", 3)}
+	c17P = []string{uu("3", 1), uu("3", 2)}
+	c17Q = uu("4", 1)
+	c17W = uu("5", 1)
 )
 
 type c17Scenario struct {
@@ -272,6 +272,7 @@ func c17Explore(r *ev.Run, dbs *schemas.DB, sc c17Scenario, bound int) {
 		}
 	}
 	execs := 0
+	retry := 0
 	var explore func(prefix []int)
 	explore = func(prefix []int) {
 		if r.Expired() {
@@ -288,6 +289,12 @@ func c17Explore(r *ev.Run, dbs *schemas.DB, sc c17Scenario, bound int) {
 			})
 		}
 		res := vsync.Explore(fns, prefix, 4000, 10*time.Second)
+		if res.Diverged != "" && retry < 6 {
+			retry++
+			explore(prefix)
+			return
+		}
+		retry = 0
 		execs++
 		r.Add("transitions", int64(len(res.Points)))
 		r.Add("executions", 1)
